@@ -30,7 +30,7 @@ NoSeen == [method |-> <<>>, path |-> <<>>, host |-> <<>>, scheme |-> <<>>, field
 
 S0 == [q |-> "idle", req |-> <<>>, hasReq |-> FALSE, blkOpen |-> FALSE, pblk |-> <<>>, pblkES |-> FALSE, pblkSz |-> 0,
        trl |-> <<>>, hasTrl |-> FALSE, peerES |-> FALSE, body |-> 0, flowSent |-> 0,
-       hs |-> 0, hsJudged |-> FALSE, rawBody |-> FALSE, seen |-> NoSeen, he |-> 0, resp |-> NoShape,
+       hs |-> 0, hsJudged |-> FALSE, rawBody |-> FALSE, reqSz |-> 0, seen |-> NoSeen, he |-> 0, resp |-> NoShape,
        rh |-> 0, rfields |-> <<>>, rb |-> 0, res |-> 0, r4 |-> FALSE,
        grant |-> 0, sent |-> 0, srvGrant |-> 0, rstByUs |-> FALSE, rstByPeer |-> FALSE, refused |-> FALSE,
        closedAt |-> -1, errSeen |-> FALSE]
@@ -94,7 +94,9 @@ ReqExtras(mm, f, r) ==
       isTrailer == isHdr /\ r.hasReq
       malformed == isHdr /\ (IF isTrailer THEN \E i \in DOMAIN blk : IsPseudo(blk[i][1]) \/ HasUpper(blk[i][1])
                                           ELSE HdrDefects(blk) # {} \/ BadCLSyntax(blk))
-      toolarge == isHdr /\ blkSz > MaxHdr(mm)
+      \* request fields and trailer fields share one MaxHeaderListSize budget (C13: "a header list larger than ...")
+      before == IF isTrailer THEN (IF f.first THEN r.pblkSz ELSE r.reqSz) ELSE 0
+      toolarge == isHdr /\ blkSz + before > MaxHdr(mm)
       clTooBig == isHdr /\ ~isTrailer /\ \E v \in ValuesOf(blk, B_contentlength) :
                      IsDigits(v) /\ (Len(StripZeros(v)) > 10 \/ (Len(StripZeros(v)) = Len(DigitsOf(MaxBody(mm))) /\ StripZeros(v) # DigitsOf(MaxBody(mm)) /\
                                        \E k \in 1..Len(StripZeros(v)) : (\A j \in 1..(k-1) : StripZeros(v)[j] = DigitsOf(MaxBody(mm))[j]) /\ StripZeros(v)[k] > DigitsOf(MaxBody(mm))[k])
@@ -156,7 +158,8 @@ OnSend(mm0, f0) ==
       \* the peer's flow-control spending (DATA counts with its padding)
       r1 == IF f.ty = T_DATA THEN [r EXCEPT !.srvGrant = @ - f.len, !.body = @ + f.dlen, !.rawBody = @ \/ ~f.pat] ELSE r
       r2 == IF f.ty = T_HEADERS /\ f.first
-            THEN [r1 EXCEPT !.pblk = f.fields, !.pblkES = f.es, !.pblkSz = f.hsz, !.blkOpen = ~f.eh]
+            THEN [r1 EXCEPT !.pblk = f.fields, !.pblkES = f.es, !.pblkSz = f.hsz, !.blkOpen = ~f.eh,
+                            !.reqSz = IF r1.hasReq THEN r1.pblkSz ELSE 0]
             ELSE IF f.ty = T_CONT /\ f.eh THEN [r1 EXCEPT !.blkOpen = FALSE] ELSE r1
       \* grants: WINDOW_UPDATE and SETTINGS_INITIAL_WINDOW_SIZE
       r3 == IF f.ty = T_WU /\ f.sid # 0 /\ f.len = 4 /\ ~Overflows(r2.grant - r2.sent, f.inc)
@@ -165,7 +168,7 @@ OnSend(mm0, f0) ==
                        !.blkBad = IF f.ty \in {T_HEADERS, T_CONT} /\ ~f.eh THEN f.hbad ELSE FALSE,
                        !.curAfterClose = mm.closed,
                        \* a well-formed PING awaits its acknowledgement (6.7), in order, with the same opaque data
-                       !.pings = IF f.ty = T_PING /\ ~f.ack /\ f.sid = 0 /\ f.len = 8 /\ al = {P} /\ ~mm.closed /\ ~mm.connErr
+                       !.pings = IF f.ty = T_PING /\ ~f.ack /\ f.sid = 0 /\ f.len = 8 /\ al = {P} /\ ~mm.closed
                                  THEN Append(@, f.inc) ELSE @,      \* sent into a connection the server had already closed: nothing to judge
                        \* the only permitted reactions to this frame are connection errors
                        !.mustErr = @ \/ (al # {} /\ \A x \in al : x.k = "cerr"),
@@ -337,7 +340,12 @@ Progress(mm, e) ==
       c9 == FlagIf(c8, e.hdrb > MaxHdr(mm) + 16384 + 9, "C13:buffered-header-bytes-exceed-bound")
       c9b == FlagIf(c9, e.strms <= 100 /\ MaxBody(mm) < 16000000 /\ e.bodyb > e.strms * (MaxBody(mm) + 16384),
                     "C13:buffered-request-body-bytes-exceed-bound")
-      c10 == FlagIf(c9b, e.rdlen > 128 \/ e.wrlen > 128, "C13:queue-exceeds-capacity")
+      c10a == FlagIf(c9b, e.rdlen > 128 \/ e.wrlen > 128, "C13:queue-exceeds-capacity")
+      \* experimental consistency clauses (prefix Z: belongs to no property; they only show up in the evidence)
+      slots == {sid \in DOMAIN mm.s : sid # 0 /\ (mm.s[sid].q \in {"open", "hcr"} \/ (mm.s[sid].hs >= 1 /\ mm.s[sid].he = 0))}
+      c10b == FlagIf(c10a, live /\ ~mm.multi /\ e.winc # mm.grantC - mm.sentC /\ mm.grantC - mm.sentC < 2147483647,
+                     "Z:connection-send-window-as-the-server-sees-it-differs-from-the-ledger")
+      c10 == FlagIf(c10b, live /\ e.open # Cardinality(slots), "Z:open-stream-count-differs")
   IN c10
 
 OnQ(mm, e) ==
